@@ -71,7 +71,7 @@ def setup(ctx):
         if state.get("via"):
             state["expect_lists"] = r
         if hasattr(ctx, "c18_seen") and len(ctx.c18_seen) < 400:
-            ctx.c18_seen.append((fn, r))
+            ctx.c18_seen.append((fn, tuple(list(x) for x in r)))
 
     def exc_parse(args, kwargs, exc):
         fn = args[0]
@@ -144,7 +144,15 @@ def _names(ctx, n):
                     ctx.c18["via"] = False
                     ctx.c18["expect_lists"] = None
             else:
-                T.parse_wheel_tags(fn)
+                res = T.parse_wheel_tags(fn)
+                if rnd.random() < 0.3:
+                    # a consumer that edits the lists it was handed (they are its own): later parses must not see it
+                    for lst in res:
+                        if rnd.random() < 0.5:
+                            lst.clear()
+                        else:
+                            lst.append("edited-by-caller")
+                    ctx.shape("consumer-mutation")
             if mutated and (not fn.endswith(".whl") or fn[:-4].count("-") not in (4, 5)):
                 pass  # post_parse reports it
         except T.InvalidWheelFilename:
@@ -242,7 +250,7 @@ def _reparse_sample(ctx):
 
     for fn, first in ctx.c18_seen[:400]:
         try:
-            again = T.parse_wheel_tags(fn)
+            again = tuple(list(x) for x in T.parse_wheel_tags(fn))
         except T.InvalidWheelFilename:
             again = "InvalidWheelFilename"
         except Exception as e:  # noqa: BLE001
